@@ -14,8 +14,11 @@
     `toBits x` is not a NaN pattern, for non-NaN `x`), which the kernel cannot see through;
   * `editor_block_roundtrip_ieee`, `difficulty_block_roundtrip_ieee`, `events_block_roundtrip_ieee`: the section round
     trips for the IEEE instances under that hypothesis only.
-  Still hypotheses for the IEEE instance: `IntPrintLaw` (`AudioLeadIn`), and every arithmetic inverse
-  (Props/C02.lean). That Rust's own `Display`/`FromStr` agree with `printBits`/`parseBits` is tested
+  * `printBits_intBits_f64`: every integer `z` with `|z| < 2^53` prints as `intDigits z` (bit level, no hypothesis:
+    `intBits fmt64 z` is the pattern `roundRat`/`parseBits` assigns to `z`); `intPrintLaw_float`: `IntPrintLaw Float`
+    from the runtime hypothesis `FloatOfIntLaw` (`Float.ofInt z` has that pattern on the `i32` range);
+    `general_block_roundtrip_ieee`.
+  Still hypotheses for the IEEE instance: every arithmetic inverse (Props/C02.lean). That Rust's own `Display`/`FromStr` agree with `printBits`/`parseBits` is tested
   (lib/codecgen.py), not proved.
 -/
 import RosuModel.Props.C02
@@ -74,6 +77,26 @@ theorem difficulty_block_roundtrip_ieee (h : FloatBitsLaw) (h' : Float32BitsLaw)
     (runSection parseDifficulty (DifficultyState.create : DifficultyState Float Float32)
       (RtDifficulty.decodedLines d)).difficulty = d :=
   difficulty_block_roundtrip (codecLaws_float h) (codecLaws_float32 h') d hd
+
+/-- **integers print like integers** (`f64`, `|z| < 2^53`), at the bit level. -/
+theorem printBits_intBits_f64 (z : Int) (hz : z.natAbs < 2 ^ 53) : printBits fmt64 (intBits fmt64 z) = intDigits z :=
+  FCL.printBits_intBits_f64 z hz
+
+/-- an integer-valued finite pattern prints as that integer (any format with `p ≤ 57`). -/
+theorem printBits_of_int_value (f : FloatFmt) (hp : 1 ≤ f.p) (hp' : f.p ≤ 57) (b n : Nat) (hb0 : 0 < b)
+    (hbi : b < f.infBits) (h : IntPattern f b n) :
+    printBits f b = decDigits n ∧ printBits f (f.signBit + b) = '-' :: decDigits n :=
+  FCL.printBits_of_int_value f hp hp' b n hb0 hbi h
+
+/-- **`IntPrintLaw` for the driver's `Float`**, from the `ofInt` hypothesis alone. -/
+theorem intPrintLaw_float (h : FloatOfIntLaw) : IntPrintLaw Float := FCL.intPrintLaw_float h
+
+theorem general_block_roundtrip_ieee (hi : FloatOfIntLaw) (h' : Float32BitsLaw) (g : GeneralState Float Float32)
+    (ss : SampleBank) (hg : RtGeneral.RepGeneral (fun x : Float32 => x.isNaN = false) g) :
+    Accepts RtGeneral.generalStep (GeneralState.default : GeneralState Float Float32) (RtGeneral.decodedLines g ss) ∧
+    runSection RtGeneral.generalStep (GeneralState.default : GeneralState Float Float32) (RtGeneral.decodedLines g ss) =
+      RtGeneral.preservedGeneral g ss :=
+  general_block_roundtrip (intPrintLaw_float hi) (codecLaws_float32 h') g ss hg
 
 theorem events_block_roundtrip_ieee (h : FloatBitsLaw) (e : Events Float)
     (he : RtEvents.RepEvents (fun x : Float => x.isNaN = false) e) :
